@@ -25,6 +25,9 @@ type Cut struct {
 	K    int    `json:"k"`
 	Kind string `json:"kind"` // "close" or "fail"
 	With bool   `json:"with"`
+	// Err is the kind of error value a "fail" cut makes the reader return
+	// (iosim.FailErrFor): "", "wraps-eof", "unexpected-eof".
+	Err string `json:"err,omitempty"`
 }
 
 // Case is one fully materialised simulated execution.
@@ -37,6 +40,9 @@ type Case struct {
 	Raw   []byte         `json:"raw,omitempty"` // literal stream (no structure known); used when Doc is nil
 	Sched iosim.Schedule `json:"schedule"`
 	Cut   *Cut           `json:"cut,omitempty"`
+	// Bufio > 0: the scanner reads through a bufio.Reader of that size wrapped
+	// around the simulated reader.
+	Bufio int `json:"bufio,omitempty"`
 	// NameArgs mirrors Opts.NameArguments.
 	NameArgs bool `json:"name_args"`
 	// Extra carries engine-specific material (map orders, task scripts…).
@@ -93,7 +99,7 @@ func ErrKey(err error) string {
 	case err == io.EOF:
 		return "EOF"
 	}
-	if _, ok := err.(*iosim.InjectedError); ok {
+	if _, ok := err.(*iosim.InjectedError); ok || err == io.ErrUnexpectedEOF {
 		return "injected"
 	}
 	return "err:" + err.Error()
@@ -154,6 +160,10 @@ func (l *LoopRes) Snaps() []*stack.Snapshot {
 func ScanLoop(sr *iosim.SimReader, w *iosim.SimWriter, opts *stack.Opts, maxCalls int, hook func(call int, res *CallRes)) *LoopRes {
 	lr := &LoopRes{}
 	var in io.Reader = sr
+	if sr.Front != nil {
+		in = sr.Front
+	}
+	front := in
 	pending := 0 // bytes of suffix in front of sr
 	for call := 0; ; call++ {
 		if call >= maxCalls {
@@ -180,7 +190,7 @@ func ScanLoop(sr *iosim.SimReader, w *iosim.SimWriter, opts *stack.Opts, maxCall
 				break
 			}
 			pending = len(res.Suffix)
-			in = io.MultiReader(bytes.NewReader(res.Suffix), sr)
+			in = io.MultiReader(bytes.NewReader(res.Suffix), front)
 			continue
 		}
 		lr.StopErr = res.Err
